@@ -97,6 +97,7 @@ type Interp struct {
 	cur     *Thread
 	ending  bool
 	swBudget int
+	interrupted *Thread // the thread an eager thread was scheduled in front of
 	// misc models
 	crcApps  []crcApp
 	rankApps []rankApp
